@@ -17,7 +17,8 @@
    documented use is rows = R, cols = C (open mode never reads them). *)
 From Coq Require Import ZArith Lia.
 From CPL Require Import Model.Base Model.Rules Model.Engine Model.Evolve2D Model.Sandpile.
-From CPL Require Import Proofs.Evolve2DProofs Proofs.SandpileProofs.
+From CPL Require Import Model.Memo2D.
+From CPL Require Import Proofs.Evolve2DProofs Proofs.SandpileProofs Proofs.SandpileMemoProofs.
 Local Open Scope Z_scope.
 
 (* the rule object on the torus block of a cell: closed boundary first, then the schedule, then toppling *)
@@ -228,6 +229,48 @@ Example C14_add_grain_outside_premise :
          [[0; 0; 0]; [0; 4; 0]; [0; 0; 0]] 1) = [[0; 1; 0]; [1; 5; 1]; [0; 1; 0]].
 Proof. split; vm_compute; reflexivity. Qed.
 
+(* ------------------------------------------------------------------ every memoize mode (with C04) *)
+(* evolve2d(hist, T, Sandpile(rows, cols, False), r=1, neighbourhood=ty, memoize=m) with NO scheduled
+   additions, m in {False (Plain), True (Memo), "recursive" (Recursive)}; engines of Model/Memo2D.v.
+   The rule object is then a pure function of the five unmasked entries it reads, so (C04 transparency)
+   every mode returns the array of the plain loop; that array is the history followed by the iterated BTW
+   map  btw_map R C g = grid_of R C (btw_cell g R C)  (btw_iter R C n g = [btw_map g; btw_map (btw_map g); ...]),
+   and every grid of it holds as many grains as the initial one. *)
+Theorem C14_sandpile_conserves_all_modes : forall rows cols (m : mode) ty R C hist T,
+  (1 <= R)%nat -> (1 <= C)%nat -> wf_grid R C (last hist []) -> (1 <= T)%nat ->
+  arr2_of (evolve2d_mode_fixed (sandpile_rule rows cols false []) store_id m 1 ty tt hist T)
+  = arr2_of (evolve2d_plain (sandpile_rule rows cols false []) store_id 1 ty tt hist T) /\
+  arr2_of (evolve2d_mode_fixed (sandpile_rule rows cols false []) store_id m 1 ty tt hist T)
+  = Ok (hist ++ btw_iter R C (T - 1) (last hist [])) /\
+  length (btw_iter R C (T - 1) (last hist [])) = (T - 1)%nat /\
+  Forall (fun g' => gsum g' = gsum (last hist [])) (btw_iter R C (T - 1) (last hist [])).
+Proof. exact sandpile_conserves_all_modes. Qed.
+
+(* non-vacuity: the 2x2 torus (neighbours coincide) through all three engines *)
+Example C14_nonvacuous_all_modes :
+  let g := [[4; 0]; [1; 9]] in
+  wf_grid 2 2 (last [g] []) /\
+  map (fun m => arr2_of (evolve2d_mode_fixed (sandpile_rule 2 2 false []) store_id m 1 VonNeumann tt [g] 3))
+      [Plain; Memo; Recursive]
+  = repeat (Ok [[[4; 0]; [1; 9]]; [[0; 4]; [5; 5]]; [[4; 2]; [3; 5]]]) 3 /\
+  btw_iter 2 2 2 g = [[[0; 4]; [5; 5]]; [[4; 2]; [3; 5]]].
+Proof. cbv zeta. split; [wf|]. split; vm_compute; reflexivity. Qed.
+
+(* OUTSIDE the contract of `memoize` (its docstring excludes rules that depend on the cell index): with
+   the CLOSED boundary the rule reads c, the memo key is the block only, and the memoised engines differ
+   from the plain loop.  6x6 zeros with 4 grains at (1,2) and (4,2): cell (3,2) is served the cached 0 of
+   the boundary cell (0,2), and the boundary cell (5,2) is served the cached 1 of the interior cell (2,2).
+   /repo returns exactly these arrays for memoize=True and memoize="recursive". *)
+Example C14_closed_memo_outside_contract :
+  let g := [[0;0;0;0;0;0]; [0;0;4;0;0;0]; [0;0;0;0;0;0]; [0;0;0;0;0;0]; [0;0;4;0;0;0]; [0;0;0;0;0;0]] in
+  let plain := [[0;0;0;0;0;0]; [0;1;0;1;0;0]; [0;0;1;0;0;0]; [0;0;1;0;0;0]; [0;1;0;1;0;0]; [0;0;0;0;0;0]] in
+  let memo  := [[0;0;0;0;0;0]; [0;1;0;1;0;0]; [0;0;1;0;0;0]; [0;0;0;0;0;0]; [0;1;0;1;0;0]; [0;0;1;0;0;0]] in
+  arr2_of (evolve2d_mode_fixed (sandpile_rule 6 6 true []) store_id Plain 1 VonNeumann tt [g] 2) = Ok [g; plain] /\
+  arr2_of (evolve2d_mode_fixed (sandpile_rule 6 6 true []) store_id Memo 1 VonNeumann tt [g] 2) = Ok [g; memo] /\
+  arr2_of (evolve2d_mode_fixed (sandpile_rule 6 6 true []) store_id Recursive 1 VonNeumann tt [g] 2) = Ok [g; memo] /\
+  plain <> memo.
+Proof. cbv zeta. split; [|split; [|split]]; try (vm_compute; reflexivity). discriminate. Qed.
+
 Print Assumptions C14_rule_on_block.
 Print Assumptions C14_read_entries_unmasked.
 Print Assumptions C14_sandpile_is_btw.
@@ -244,3 +287,4 @@ Print Assumptions C14_total_nonincreasing.
 Print Assumptions C14_stable_forever.
 Print Assumptions C14_evolution_conserves.
 Print Assumptions C14_evolution_closed.
+Print Assumptions C14_sandpile_conserves_all_modes.
